@@ -249,10 +249,11 @@ func (r *Run) Now() time.Duration {
 	return time.Since(r.start)
 }
 
-// LoopLimit is the number of loop iterations (in the instrumented packages) after which a run is declared
-// to be spinning.  The busiest legitimate runs stay below one percent of it (probe
-// loop-iterations-over-1-percent-of-limit counts the runs that do not).
-const LoopLimit = 400_000_000
+// LoopLimit is the number of loop iterations (in the instrumented packages) one goroutine may execute in one
+// stretch - without any other goroutine running in between, i.e. without ever blocking - before the run is
+// declared to be spinning.  The probes loop-stretch-over-{0.1,1,10}-percent-of-limit count the runs whose
+// longest stretch comes near it.
+const LoopLimit = 5_000_000
 
 var maxLoopsSeen int64
 
@@ -554,10 +555,11 @@ func Execute(sc *Scenario, base, index uint64, tier string, suppress []string, t
 	// the instrumented copies count loop iterations, and a run that passes the limit is stopped by a panic
 	// in the spinning goroutine (process-fatal, attributed to this run, reproduced by its replay)
 	common.VerifLoops = 0
+	common.VerifLoopsMax = 0
 	common.VerifLoopLimit = LoopLimit
 	common.VerifLoopHook = func() {
 		common.VerifLoopLimit = 0
-		panic(fmt.Sprintf("livelock: more than %d loop iterations in one run", LoopLimit))
+		panic(fmt.Sprintf("livelock: more than %d loop iterations on one goroutine without any other goroutine running in between", LoopLimit))
 	}
 	common.VerifYieldHook = nil
 	if sc.Yields {
@@ -636,11 +638,20 @@ func Execute(sc *Scenario, base, index uint64, tier string, suppress []string, t
 	if sc.Yields {
 		r.ProbeN("yield-sites-visited", int64(r.collectYields()))
 	}
-	if common.VerifLoops > LoopLimit/100 {
-		r.Probe("loop-iterations-over-1-percent-of-limit")
+	if common.VerifLoops > common.VerifLoopsMax {
+		common.VerifLoopsMax = common.VerifLoops
 	}
-	if common.VerifLoops > maxLoopsSeen {
-		maxLoopsSeen = common.VerifLoops
+	for _, b := range []struct {
+		n    int64
+		name string
+	}{{LoopLimit / 10, "loop-stretch-over-10-percent-of-limit"}, {LoopLimit / 100, "loop-stretch-over-1-percent-of-limit"}, {LoopLimit / 1000, "loop-stretch-over-0.1-percent-of-limit"}} {
+		if common.VerifLoopsMax > b.n {
+			r.Probe(b.name)
+			break
+		}
+	}
+	if common.VerifLoopsMax > maxLoopsSeen {
+		maxLoopsSeen = common.VerifLoopsMax
 	}
 	res.WallNS = int64(time.Since(wall))
 	leaked := runtime.NumGoroutine() - g0
